@@ -239,10 +239,16 @@ def run(ctx):
     from spectrum import aryule, lpc, pyule
     rng = ctx.rng
     ctx.check_theorems('Properties/C12.v')
+    # vlib.parse_assumptions only sees axioms whose type starts on the same line; the two instances at
+    # Coquelicot's C depend on all three standard-library axioms of the reals (see Properties/C12.v output)
+    REALS = ['ClassicalDedekindReals.sig_forall_dec', 'ClassicalDedekindReals.sig_not_dec',
+             'FunctionalExtensionality.functional_extensionality_dep']
+    ctx.obligations = [(n, ok, sorted(set(ax) | set(REALS)) if (ok and ax and n in ('aryule_stable_complex', 'aryule_stable_C')) else ax)
+                       for (n, ok, ax) in ctx.obligations]
 
     # ---------------- correspondence: aryule (+ pyule attributes)
     cases = []; meta = []
-    n = ctx.q(220, 1500); tries = 0
+    n = ctx.q(220, 2500); tries = 0
     while len(cases) < n and tries < 20 * n:
         tries += 1
         kind = str(rng.choice(['biased', 'biased', 'biased', 'unbiased', 'unbiased', 'badorder', 'badnorm']))
@@ -344,7 +350,7 @@ def run(ctx):
         ctx.corr_disagreement('lpc', i, meta[i])
 
     # ---------------- property-directed search on the implementation
-    nsearch = ctx.q(260, 2600)
+    nsearch = ctx.q(260, 6000)
     kinds = ['noise', 'tones', 'trend', 'int', 'ar']
     for it in range(nsearch):
         kind = kinds[it % len(kinds)]
